@@ -9,7 +9,7 @@ import VarlinkVerif.Pred.IdlFmt
 namespace VV
 open Sx Idl
 
-def fmtCase (sx : Sx) : Sx :=
+partial def fmtCase (sx : Sx) : Sx :=
   match sx with
   | .list [.atom "fmt", w, t] =>
     match asNat w, (asStr t).map String.toList with
@@ -32,6 +32,7 @@ def fmtCase (sx : Sx) : Sx :=
       | .ok i => .list [.atom "fmt1", strSx (Fmt.oneline i), strSx (Fmt.onelineC i), strSx (Fmt.display i)]
       | _ => .list [.atom "unparsable"]
     | none => .atom "model-case-error"
+  | .list [.atom "cli", w, c, t, _via] => fmtCase (.list [.atom "cli", w, c, t])
   | .list [.atom "cli", w, c, t] =>
     -- `-` for the width: no `-c` option, the tool's default of 80 columns
     match asOptBool c, (asStr t).map String.toList with
